@@ -2,6 +2,7 @@ import ActixNet.Lemmas.Avail
 import ActixNet.Lemmas.SrvRR
 import ActixNet.Lemmas.SrvProgress
 import ActixNet.Lemmas.SrvCursor
+import ActixNet.Lemmas.SrvCursor2
 /-!
 # C04 — dispatch is round-robin over available workers only; availability bits are independent
 
@@ -263,6 +264,117 @@ def badSt : St :=
 example : let S' := poll cfg3 badSt [.listener 0] []
     S'.fault = some .panicOffset ∧ S'.dispatched = badSt.dispatched ∧ S'.faultedLog = badSt.faultedLog ∧
     badSt.next = 0 ∧ S'.next = 1 := by
+  decide
+
+/-! ### After a dispatch the cursor stands right behind the worker that got the last connection -/
+
+/-- **Every dispatch advances the cursor past the worker that received the connection.**
+One iteration of the accept loop (`poll_with`: any event batch, any schedule of other threads' actions at
+the yield points, ANY start state — no invariant assumed) that dispatched at least one connection, reported
+no `WorkerFaulted` and ended fault-free, with as many handles as it started with (then `handles` is literally
+unchanged: `Fol.handles_eq`), ends with `Accept::next` right behind the worker `w` of the LAST entry `(c, w)`
+of the dispatch log: `handles[pos] = w` and `next = (pos + 1) % handles.len()`.
+For the code: `send_connection` calls `set_next` after EVERY successful send — also when that send took the
+worker to its limit (`inc_counter` returned false and the availability bit was cleared) — and nothing that
+can follow in the iteration without logging (a `WorkerAvailable`, `Pause` / `Resume` / `Stop`, a time-out, an
+`accept()` error, `WouldBlock`) moves the cursor again; `accept_one` steps over unavailable workers only on
+the way to the next dispatch (`acceptOne_moved`), which is then the last one.  This is the harness oracle "the last
+connection of this iteration went to worker … but the cursor is at slot …"; seed13 C04-25 returned early
+from `send_connection` after a saturating send, leaving the cursor ON the worker that had just been filled.
+The hypothesis on `handles.length` cannot be dropped for this form — see `cursor_follows_last_dispatch_grown`
+and the last example below. -/
+theorem cursor_follows_last_dispatch (cfg : Cfg) (s : St) (order : List Ev) (sched : List (List EnvAct)) :
+    let s' := poll cfg s order sched
+    s'.fault = none → s'.faultedLog.length = s.faultedLog.length → s'.handles.length = s.handles.length →
+    s.dispatched.length < s'.dispatched.length →
+    ∃ c w pos, s'.dispatched.getLast? = some (c, w) ∧ s'.handles[pos]? = some w ∧
+      s'.next = (pos + 1) % s'.handles.length := by
+  intro s' hnf hf hh hd
+  exact (poll_fol cfg s order sched).behind_same hnf hf hh hd
+
+/-- the same without the hypothesis on the number of handles: a `Worker` handle pushed during the iteration
+goes to the END of `handles` (slots of existing handles are stable) but `set_next` took the modulus with the
+number `n` of handles at the time of the last send, `s.handles.length ≤ n ≤ s'.handles.length`.  So if the
+cursor wrapped to 0 behind the last slot and a handle is pushed afterwards, `next = 0 ≠ (pos + 1) % len`. -/
+theorem cursor_follows_last_dispatch_grown (cfg : Cfg) (s : St) (order : List Ev) (sched : List (List EnvAct)) :
+    let s' := poll cfg s order sched
+    s'.fault = none → s'.faultedLog.length = s.faultedLog.length → s.dispatched.length < s'.dispatched.length →
+    ∃ c w pos n, s'.dispatched.getLast? = some (c, w) ∧ pos < n ∧ s.handles.length ≤ n ∧ n ≤ s'.handles.length ∧
+      s'.handles[pos]? = some w ∧ s'.next = (pos + 1) % n := by
+  intro s' hnf hf hd
+  obtain ⟨c, w, hl, pos, n, h⟩ := (poll_fol cfg s order sched).behind hnf hf hd
+  exact ⟨c, w, pos, n, hl, h⟩
+
+/-- the same over any list of operations of the stepped system -/
+theorem cursor_follows_last_dispatch_run (cfg : Cfg) (s : St) (ops : List Op) :
+    let s' := run cfg s ops
+    s'.fault = none → s'.faultedLog.length = s.faultedLog.length → s'.handles.length = s.handles.length →
+    s.dispatched.length < s'.dispatched.length →
+    ∃ c w pos, s'.dispatched.getLast? = some (c, w) ∧ s'.handles[pos]? = some w ∧
+      s'.next = (pos + 1) % s'.handles.length := by
+  intro s' hnf hf hh hd
+  exact (run_fol cfg ops s).behind_same hnf hf hh hd
+
+/-- in every reachable state a worker incarnation has at most one handle ("one handle per index", `NP`) -/
+theorem reachable_handles_nodup (cfg : Cfg) (ok : CfgOk cfg) (kinds : List Kind) (ops : List Op) :
+    (run cfg (init cfg kinds) ops).handles.Nodup :=
+  nodup_of_map (handles_nodup (run_np ok ops _ (init_np cfg kinds)).sound)
+
+/-- **in every reachable state**, with `fault = none` discharged (`run_fault_none`): an iteration after any
+history from the initial state of a valid configuration (worker deaths included) that dispatched, reported
+no `WorkerFaulted` and took in no new handle leaves `handles` unchanged and the cursor right behind THE slot
+of the worker that received the last connection (the slot is unique: `reachable_handles_nodup`) — exactly
+what the harness oracle computes from the real `Accept` -/
+theorem reachable_cursor_follows_last_dispatch (cfg : Cfg) (ok : CfgOk cfg) (kinds : List Kind) (ops : List Op)
+    (order : List Ev) (sched : List (List EnvAct)) :
+    let S := run cfg (init cfg kinds) ops
+    let S' := poll cfg S order sched
+    S'.faultedLog.length = S.faultedLog.length → S'.handles.length = S.handles.length →
+    S.dispatched.length < S'.dispatched.length →
+    ∃ c w pos, S'.dispatched.getLast? = some (c, w) ∧ S'.handles[pos]? = some w ∧
+      S'.next = (pos + 1) % S'.handles.length ∧ S'.handles = S.handles ∧
+      ∀ pos', S'.handles[pos']? = some w → pos' = pos := by
+  intro S S' hf hh hd
+  have hrun : S' = run cfg (init cfg kinds) (ops ++ [.poll order sched]) := by
+    rw [run_cat]; rfl
+  have hnf : S'.fault = none := by rw [hrun]; exact run_fault_none ok kinds _
+  have hnd : S'.handles.Nodup := by rw [hrun]; exact reachable_handles_nodup cfg ok kinds _
+  obtain ⟨c, w, pos, hl, hp, hn⟩ := (poll_fol cfg S order sched).behind_same hnf hf hh hd
+  exact ⟨c, w, pos, hl, hp, hn, (poll_fol cfg S order sched).handles_eq hf hh, fun pos' h' => slot_unique hnd h' hp⟩
+
+-- non-vacuity: 3 workers, limit 1 (every send saturates the worker it goes to).  Two queued connections: the
+-- iteration dispatches both, the last one to worker 1 (slot 1, now marked unavailable), the cursor ends at 2
+def cfg1 : Cfg := { limit := 1, nIdx := 3 }
+def twoOps : List Op := [.env (.connect 0), .env (.connect 0)]
+example : let S := run cfg1 (init cfg1 [.tcp]) twoOps
+    let S' := poll cfg1 S [.listener 0, .waker] []
+    CfgOk cfg1 ∧ S.next = 0 ∧ S'.fault = none ∧ S'.faultedLog.length = S.faultedLog.length ∧
+    S'.handles.length = S.handles.length ∧ S.dispatched.length + 2 = S'.dispatched.length ∧
+    S'.dispatched.getLast? = some ((1, 0), 1) ∧ S'.handles[1]? = some 1 ∧ S'.avail 1 = false ∧ S'.next = 2 := by
+  refine ⟨⟨by decide, by decide, by decide⟩, ?_⟩
+  decide
+-- three connections: the last send saturates the last worker (no worker available any more) and the cursor
+-- still advances — it wraps to slot 0
+def threeOps : List Op := [.env (.connect 0), .env (.connect 0), .env (.connect 0)]
+example : let S := run cfg1 (init cfg1 [.tcp]) threeOps
+    let S' := poll cfg1 S [.listener 0, .waker] []
+    S'.fault = none ∧ S'.faultedLog.length = S.faultedLog.length ∧ S'.handles.length = S.handles.length ∧
+    S'.dispatched.map (·.2) = [0, 1, 2] ∧ S'.handles[2]? = some 2 ∧
+    S'.avail 0 = false ∧ S'.avail 1 = false ∧ S'.avail 2 = false ∧ anyAvail cfg1 S' = false ∧ S'.next = 0 := by
+  decide
+-- the hypothesis `handles.length` unchanged is needed for the modulus `handles.length`: worker 0 died and was
+-- removed (`handles = [2, 1]`), its replacement 3 waits in the waker queue, the cursor is at slot 1.  The
+-- iteration dispatches to worker 1 (slot 1; the cursor wraps: (1 + 1) % 2 = 0) and THEN takes the new handle
+-- in: three handles, cursor 0 — which is `(pos + 1) % n` for `n = 2` (`cursor_follows_last_dispatch_grown`)
+-- and not `(1 + 1) % 3`
+def grownOps : List Op :=
+  [.env (.die 0), .env (.connect 0), .poll [.listener 0, .waker] [], .env (.restart 0), .env (.connect 0)]
+example : let S := run cfg3 (init cfg3 [.tcp]) grownOps
+    let S' := poll cfg3 S [.listener 0, .waker] []
+    S.handles = [2, 1] ∧ S.next = 1 ∧ S.wq = [.worker 3] ∧
+    S'.fault = none ∧ S'.faultedLog.length = S.faultedLog.length ∧ S.dispatched.length < S'.dispatched.length ∧
+    S'.dispatched.getLast? = some ((1, 0), 1) ∧ S'.handles = [2, 1, 3] ∧ S'.handles[1]? = some 1 ∧
+    S'.next = 0 ∧ S'.next = (1 + 1) % 2 ∧ S'.next ≠ (1 + 1) % S'.handles.length := by
   decide
 
 end ActixNet.C04
